@@ -110,8 +110,13 @@ impl fmt::Debug for Cell {
                 _ => write!(f, "{}", n),
             },
             Cell::Real(r) => write!(f, "{}", r),
-            Cell::Str(s) if flags.fitscreen() && s.len() > STR_ELIDE_LEN =>
-                write!(f, "\"{} ...", s.split_at(STR_ELIDE_LEN).0),
+            Cell::Str(s) if flags.fitscreen() && s.len() > STR_ELIDE_LEN => {
+                let mut cut = STR_ELIDE_LEN;
+                while !s.is_char_boundary(cut) {
+                    cut -= 1;
+                }
+                write!(f, "\"{} ...", s.split_at(cut).0)
+            }
             Cell::Str(s) => write!(f, "{:?}", s.as_str()),
             Cell::Vector(v) => {
                 f.write_str("[ ")?;
